@@ -104,8 +104,8 @@ def main_c02(tier, seed):
     for it in insts:
         rk = ranker_for(it)
         try:
-            st = impl_prim(it)
-            _, fst = impl_fit(it)
+            st = impl_prim(it, reuse=(len(terms) % 2 == 1))
+            _, fst = impl_fit(it, reuse=(len(terms) % 2 == 1))
         except Exception as ex:
             st, fst = dict(error=repr(ex)), None
         exp = safe_dump(st, rk)
